@@ -256,6 +256,8 @@ func load(repo string, m *Manifest, mdir string) (*ssa.Program, *ssa.Package, er
 		if err != nil {
 			return nil, nil, err
 		}
+		// shared harness sources carry the placeholder package clause "package VERIFPKG"
+		b = []byte(strings.Replace(string(b), "package VERIFPKG", "package "+pkgName, 1))
 		overlay[filepath.Join(pkgDir, "zz_verif_"+filepath.Base(f))] = b
 	}
 	cfg := &packages.Config{
